@@ -16,8 +16,28 @@ import warnings
 from fractions import Fraction
 
 _U = {}
-RTOL = {"f8": 1e-12, "f4": 4e-6}
+# matching tolerance per float type (a chain of <= 7 roundings, one fourth power): the precision of that type
+RTOL = {"f8": 1e-12, "c16": 1e-12, "f4": 1e-5, "c8": 1e-5, "f2": 2e-2}
+NPDT = {"i1": "int8", "u1": "uint8", "i2": "int16", "u2": "uint16", "i4": "int32", "u4": "uint32", "i8": "int64", "u8": "uint64",
+        "f2": "float16", "f4": "float32", "f8": "float64", "c8": "complex64", "c16": "complex128"}
+FINFO = {"f2": "float16", "c8": "float32", "f4": "float32"}
 PAD = 7.0
+
+
+def _tol(dt):
+    # integer data: the precision of the float type of the same item size (what the property allows the library to compute in)
+    if dt[0] in "iu":
+        return {1: 2e-2, 2: 2e-2, 4: 1e-5, 8: 1e-12}[int(dt[1:])]
+    return RTOL.get(dt, 1e-12)
+
+
+def _representable(val, dt):
+    """is |val| inside the normal range of the float type dt (with a margin of 4 at both ends)?"""
+    if dt not in FINFO:
+        return True
+    fi = _U["np"].finfo(FINFO[dt])
+    a = abs(val)
+    return bool(a == 0 or (float(fi.tiny) * 4 <= a <= float(fi.max) / 4))
 
 # formula symbol -> attribute of unyt.physical_constants (long names; the code under test uses the short aliases)
 _PHYS = {
@@ -102,7 +122,7 @@ class _Snap:
         mp = _U["mp"]
         import math
 
-        if y is None or isinstance(y, complex) or math.isnan(y) or math.isinf(y):
+        if y is None or math.isnan(y) or math.isinf(y):
             return {"k": "other", "r": [0, 1], "e": [], "id": 0}
         ym = mp.mpf(y)
         cands = [(None, sv, sv_value(sv)) for sv in first] + self.pool
@@ -140,13 +160,18 @@ def _make(init):
     u = _U["units"][init["u"] - 1]
     vals = [float(sv_value(sv) / _U["mp"].mpf(u["scale"])) for sv in init["v"]]
     dt = init["dt"]
-    if dt == "i8":
+    if dt[0] in "iu":
         iv = [int(round(v)) for v in vals]
         for a, b in zip(iv, vals):
             if a != b or u["scale"] != 1.0:
                 raise RuntimeError("integer case is not integral in its unit")
         vals = iv
-    npdt = {"f8": "float64", "i8": "int64", "f4": "float32"}[dt]
+    npdt = NPDT[dt]
+    if dt != "f8":
+        # the case generator only puts numbers into a narrow dtype that it holds (nearly) exactly
+        got = np.array(vals, dtype=npdt)
+        if not np.all(np.isfinite(got)) or not np.allclose(got.real, np.array(vals, dtype="float64"), rtol=RTOL.get(dt, 0.0) / 4, atol=0):
+            raise RuntimeError(f"case value not representable in {dt}: {vals}")
     sh = init["sh"]
     parent = None
     if sh == "q":
@@ -200,13 +225,14 @@ def observe(case):
         snap.add(st["cand"])
     x, parent = _make(init)
     ev = []
+    tol = _tol(init["dt"])  # the coarsest precision any object of this trace had so far
     with warnings.catch_warnings(), np.errstate(all="ignore"):
         warnings.simplefilter("ignore")
         for st in case["h"]:
             tu = _U["units"][st["tu"] - 1]
             inplace = st["en"] in ("convert_to_units", "convert_to_equivalent")
             pre = _digest(x, parent)
-            obs = {"k": "ok", "exc": "", "v": [], "approx": [], "ueq": True, "unit": "", "cls": "", "dt": "", "frame": True}
+            obs = {"k": "ok", "exc": "", "v": [], "rep": [], "approx": [], "ueq": True, "unit": "", "cls": "", "dt": "", "frame": True}
             ret = None
             try:
                 ret = _call(x, st)
@@ -223,7 +249,7 @@ def observe(case):
                 res = x if inplace else ret
                 if st["en"] == "to_value":
                     scale = tu["scale"]
-                    obs["cls"] = "float" if type(res) is float else type(res).__name__
+                    obs["cls"] = "float" if type(res) is float else "complex" if type(res) is complex else type(res).__name__
                     arr = np.atleast_1d(np.asarray(res))
                 else:
                     scale = float(res.units.base_value)
@@ -232,13 +258,21 @@ def observe(case):
                     obs["cls"] = type(res).__name__
                     arr = np.atleast_1d(np.asarray(res))
                 obs["dt"] = _dt(arr.dtype)
-                rtol = RTOL.get(obs["dt"], 1e-12)
+                tol = max(tol, _tol(obs["dt"]))
+                rtol = tol
                 first_e = st["exp"]["v"] if st["exp"]["k"] == "ok" else []
                 first_c = st["cand"] or []
                 for i, y in enumerate(arr.ravel().tolist()):
                     first = [s[i] for s in (first_e, first_c) if i < len(s)]
-                    yy = None if isinstance(y, complex) else float(y) * scale
+                    if isinstance(y, complex):
+                        # the cases hold real numbers: an imaginary part beyond rounding makes the number foreign
+                        yy = y.real * scale if abs(y.imag) <= rtol * abs(y.real) else float("nan")
+                    else:
+                        yy = float(y) * scale
                     obs["v"].append(snap.enc(yy, first, rtol))
+                    # does the formula's number, in the result's unit, lie in the normal range of the result's float type?
+                    ref = first_c[i] if i < len(first_c) else first_e[i] if i < len(first_e) else None
+                    obs["rep"].append(True if ref is None else _representable(float(sv_value(ref)) / scale, obs["dt"]))
                     obs["approx"].append(repr(y))
                 if st["fo"] and st["en"] != "to_value" and not inplace:
                     x, parent = ret, None
